@@ -6,6 +6,7 @@ import (
 	"sort"
 	"sync"
 	"sync/atomic"
+	"time"
 
 	"go.opentelemetry.io/otel"
 	"go.opentelemetry.io/otel/attribute"
@@ -80,10 +81,14 @@ type probeKey struct{}
 
 type recProvider struct {
 	metric.MeterProvider
-	log *evlog
+	log  *evlog
+	slow time.Duration // every Meter() call of the SDK takes this much longer (widens the installation walk)
 }
 
 func (p *recProvider) Meter(name string, opts ...metric.MeterOption) metric.Meter {
+	if p.slow > 0 {
+		time.Sleep(p.slow)
+	}
 	return &recMeter{Meter: p.MeterProvider.Meter(name, opts...), log: p.log}
 }
 
@@ -112,6 +117,17 @@ type recReg struct {
 func (r *recReg) Unregister() error {
 	r.log.add(evSdkUnreg, r.id, 0)
 	return r.Registration.Unregister()
+}
+
+// slowTP: the SDK TracerProvider with a slow Tracer() (widens the installation walk).
+type slowTP struct {
+	trace.TracerProvider
+	slow time.Duration
+}
+
+func (p *slowTP) Tracer(name string, opts ...trace.TracerOption) trace.Tracer {
+	time.Sleep(p.slow)
+	return p.TracerProvider.Tracer(name, opts...)
 }
 
 // ---- instruments ----
@@ -238,7 +254,7 @@ type regH struct {
 	// creation: a callback passed to an observable-instrument constructor (no Registration, cannot be
 	// unregistered); dup: passed on a repeated request of an existing identity (ignored, like the SDK does)
 	creation, dup bool
-	called atomic.Int64
+	called        atomic.Int64
 }
 
 // ---- the world of one child process ----
@@ -264,6 +280,10 @@ type world struct {
 	tracers map[int]trace.Tracer
 	notes   []string
 	nextID  atomic.Int64
+
+	// further SDKs installed by overlapping installation calls with different provider values
+	moreReaders []*sdkmetric.ManualReader
+	moreRecs    []*tracetest.SpanRecorder
 }
 
 func newWorld() *world {
@@ -320,8 +340,16 @@ func (w *world) opInst(id, k, kind int, same *inst, cb bool) *inst {
 	if cb && isObservable(kind) {
 		h = &regH{id: id, meter: k, creation: true, dup: same != nil, obs: []*inst{x}}
 		a := metric.WithAttributes(attribute.Int("cb", id))
-		icb = func(_ context.Context, o metric.Int64Observer) error { h.ran.Add(1); o.Observe(obsValue, a); return nil }
-		fcb = func(_ context.Context, o metric.Float64Observer) error { h.ran.Add(1); o.Observe(obsValue, a); return nil }
+		icb = func(_ context.Context, o metric.Int64Observer) error {
+			h.ran.Add(1)
+			o.Observe(obsValue, a)
+			return nil
+		}
+		fcb = func(_ context.Context, o metric.Float64Observer) error {
+			h.ran.Add(1)
+			o.Observe(obsValue, a)
+			return nil
+		}
 		if !h.dup {
 			w.log.add(evRegCall, id, 0)
 		}
@@ -490,13 +518,13 @@ func (w *world) propUse() {
 // ---- final observation ----
 
 type result struct {
-	Events [][3]int `json:"events"`
-	Live   [][4]int `json:"live"` // registration, times its callback ran in the final Collect, its observations found, its instruments
-	Panic  string   `json:"panic,omitempty"`
-	Stuck  bool     `json:"stuck,omitempty"`
-	Dump   string   `json:"dump,omitempty"`
-	Bad    []string `json:"bad,omitempty"` // direct observations without a model
-	Notes  []string `json:"notes,omitempty"`
+	Events [][3]int       `json:"events"`
+	Live   [][4]int       `json:"live"` // registration, times its callback ran in the final Collect, its observations found, its instruments
+	Panic  string         `json:"panic,omitempty"`
+	Stuck  bool           `json:"stuck,omitempty"`
+	Dump   string         `json:"dump,omitempty"`
+	Bad    []string       `json:"bad,omitempty"` // direct observations without a model
+	Notes  []string       `json:"notes,omitempty"`
 	Stats  map[string]int `json:"stats,omitempty"`
 }
 
@@ -582,6 +610,22 @@ func (w *world) finish(res *result) {
 		var bad []string
 		byN, byCB, bad = arrivals(&rm)
 		res.Bad = append(res.Bad, bad...)
+		for _, rd := range w.moreReaders { // whichever SDK won the Once received the measurements
+			var rm2 metricdata.ResourceMetrics
+			if err := rd.Collect(context.Background(), &rm2); err != nil {
+				res.Bad = append(res.Bad, "Collect: "+err.Error())
+			}
+			n2, _, bad2 := arrivals(&rm2)
+			res.Bad = append(res.Bad, bad2...)
+			for name, m := range n2 {
+				if byN[name] == nil {
+					byN[name] = map[int]int{}
+				}
+				for k, v := range m {
+					byN[name][k] += v
+				}
+			}
+		}
 		var ids []int
 		for r := range w.regs {
 			ids = append(ids, r)
@@ -608,6 +652,11 @@ func (w *world) finish(res *result) {
 	if w.tinst.Load() {
 		for _, s := range w.rec.Ended() {
 			spans[s.Name()]++
+		}
+		for _, rc := range w.moreRecs {
+			for _, s := range rc.Ended() {
+				spans[s.Name()]++
+			}
 		}
 	}
 	for _, e := range evs {
